@@ -70,6 +70,13 @@ def gen_world(rng, profile):
     scn = {"classes": classes, "root": "L", "ops": []}
     lp = rel_scalars(scn, "L")
     classes["L"]["blocks"] = [{"name": "c%d" % i, "stmts": g.pstmts(lp, 1, 2)} for i in range(r.randint(1, 2))]
+    if r.random() < profile.get("plainbase", 0.25):
+        # the leaf class derives from an ordinary Python class that declares constraint blocks (one of its own name, maybe
+        # one the leaf overrides): they are enforced on every object of the hierarchy like any other block
+        classes["P"] = {"base": None, "plain": True, "fields": [], "subs": [], "pre": False, "post": False,
+                        "blocks": [{"name": "p0", "stmts": g.pstmts(lp, 1, 2)}] +
+                                  ([{"name": "c0", "stmts": g.pstmts(lp, 1, 1)}] if r.random() < 0.4 else [])}
+        classes["L"]["base"] = "P"
     have_d = r.random() < profile.get("derive", 0.5)
     if have_d:
         # derived leaf: overrides one block name, may add a field and a block
